@@ -190,6 +190,7 @@ const (
 	VerifWantZFail  = 16
 	VerifWantW0Fail = 32
 	VerifWantC0Fail = 64
+	VerifWantZEdge  = 128 // with VerifSkipZ: keep iterating until max|z| is exactly GAMMA1 - BETA
 )
 
 // VerifSignSkipping is cryptoSignSignature built from the library's own helpers with the
@@ -299,6 +300,9 @@ func VerifSignSkipping(m []uint8, sk *[CryptoSecretKeyBytes]uint8, skip int, max
 		hints = polyVecKMakeHint(&h, &w0, &w1)
 		if hints > OMEGA {
 			continue // cannot be encoded in OMEGA+K bytes
+		}
+		if skip&VerifWantZEdge != 0 && maxZ != GAMMA1-BETA {
+			continue
 		}
 		if (skip&VerifWantZFail != 0 && !zFail) || (skip&VerifWantW0Fail != 0 && !w0Fail) || (skip&VerifWantC0Fail != 0 && !c0Fail) {
 			continue
